@@ -34,6 +34,7 @@ class Req2:
         self.body = b"".join(self.chunks)
         self.complete = rng.random() < 0.92
         self.aborted = False
+        self.stalled = False
 
     def wire_headers(self):
         hs = [(b":method", self.method.encode()), (b":path", self.target.encode()), (b":scheme", b"https"),
@@ -106,7 +107,18 @@ class Session2:
                     sess.client.send_headers(r.sid, r.wire_headers() + [(b"x-verif-sid", b"%d" % r.sid)],
                                              end_stream=(r.complete and not r.chunks))
                 elif item[0] == "data":
-                    sess.client.send_data(r.sid, item[2])
+                    # padding counts against the flow-control windows (RFC 9113 6.1): its credit must come back as well
+                    pad = rng.choice([None, None, None, 0, 17, 255])
+                    need = len(item[2]) + (0 if pad is None else pad + 1)
+                    if need > 16384:
+                        pad, need = None, len(item[2])
+                    if sess.client.local_flow_control_window(r.sid) < need:
+                        sess.flush()          # read what the server has sent (WINDOW_UPDATE) before concluding anything
+                        for _ in range(3):
+                            sess.pump()
+                    if sess.client.local_flow_control_window(r.sid) < need:
+                        r.stalled = True      # the credit for what was uploaded so far has not come back
+                    sess.client.send_data(r.sid, item[2], pad_length=pad)
                 else:
                     sess.client.end_stream(r.sid)
             except Exception:  # noqa: BLE001  (the server already closed this stream: the client stops sending on it)
@@ -152,6 +164,12 @@ def oracle_c01(s: Session2):
         body = b"".join(m["body"] for m in msgs)
         finals = [m for m in msgs if not m["more_body"]]
         plan = s.plans[r.sid]
+        # (an application that does not read holds the reader on its full queue - and with it the credit of every stream of
+        # the connection: that is the design, not this property; judged only when every application of the session reads)
+        if r.stalled and all(p.read == "all-first" and p.crash is None for p in s.plans.values()):
+            fails.append((f"stream {r.sid}: the client's flow-control window was never replenished although the application reads the body "
+                          f"({len(body)} of {len(r.body)} bytes delivered)", "c01h2:upload-stalled"))
+            continue
         if plan.read == "all-first" and r.complete:
             if body != r.body:
                 fails.append((f"stream {r.sid}: body delivered {len(body)} bytes != sent {len(r.body)}", "c01h2:body"))
@@ -251,3 +269,46 @@ def f9_witness():
     if goaway and 5 not in answered and goaway[0][1] >= 5:
         return f"GOAWAY(last_stream_id={goaway[0][1]}) but stream 5 was never answered (answered: {answered})"
     return None
+
+
+def padded_upload(seed):
+    """One stream uploading many small, heavily padded DATA frames: more flow-controlled octets than both windows hold, so the
+    upload only completes if the padding is credited back too (RFC 9113 6.1, 6.9)."""
+    import random
+
+    rng = random.Random(seed)
+    recs = []
+    frames, size, pad = rng.choice([(300, 10, 255), (120, 400, 200), (500, 1, 255)])
+
+    def make_app(session):
+        async def app(scope, receive, send):
+            await S.scripted_app([[("recv_all",), ("send", {"type": "http.response.start", "status": 200, "headers": []}),
+                                   ("send", {"type": "http.response.body", "body": b"done"})]], recs, session.driver)(scope, receive, send)
+
+        return app
+
+    sess = H2.H2Session([], policy=rng.choice(["fifo", "random"]), seed=seed, app=make_app, raw_client=True, worker=rng.choice(["asyncio", "trio"]))
+    sess.client.send_headers(1, [(b":method", b"POST"), (b":path", b"/up"), (b":scheme", b"https"), (b":authority", b"x")])
+    sess.flush()
+    sent = 0
+    for k in range(frames):
+        need = size + pad + 1
+        if sess.client.local_flow_control_window(1) < need:
+            sess.flush()
+            for _ in range(3):
+                sess.pump()
+        if sess.client.local_flow_control_window(1) < need:
+            break
+        sess.client.send_data(1, b"u" * size, end_stream=(k == frames - 1), pad_length=pad)
+        sent += 1
+        if k % 7 == 0:
+            sess.flush()
+    sess.flush()
+    for _ in range(4):
+        sess.pump()
+    got = b"".join(m["body"] for m in (recs[0]["received"] if recs else []) if m["type"] == "http.request")
+    desc = {"seed": seed, "h2": {"padded_upload": {"frames": frames, "size": size, "pad": pad, "sent": sent, "delivered": len(got)}}}
+    if sent < frames or len(got) != frames * size or sess.ended.get(1, 0) != 1:
+        return desc, [(f"padded upload: {sent} of {frames} frames could be sent, {len(got)} of {frames * size} bytes delivered, "
+                       f"response ended x{sess.ended.get(1, 0)}", "c01h2:padded-upload-stalled")]
+    return desc, []
